@@ -1,5 +1,178 @@
-(* C14 property theorems (placeholder until the options development lands). *)
-From DD Require Import Model.Options.
-Theorem upd_same : forall (f : str -> bool) k v, upd f k v k = v.
-Proof. intros. unfold upd. rewrite str_eqb_refl. reflexivity. Qed.
-Print Assumptions upd_same.
+(* C14 property theorems: which mutators are enabled after option processing
+   and automatic theory detection (model Model/Options.v) agrees with the
+   independent specification Spec/EnabledSpec.v for every registry table that
+   passes registry_ok; the generated tables Gen/Tables.v pass tables_ok (by
+   computation); the pass lists of both strategies consist of enabled classes.
+   Proofs (and the definitions tables_ok, class_ok, sub_b, list_str_eqb,
+   classes_of, enabled_list) are in Proofs/Opt. *)
+From DD Require Import Base.Lit Model.Options Spec.EnabledSpec Gen.Tables.
+From DD Require Import Proofs.Opt.OptBase Proofs.Opt.EnabledCorrect Proofs.Opt.Passes
+  Proofs.Opt.TablesOk.
+Local Open Scope list_scope.
+
+(* E1: model = specification, any registry table *)
+Theorem enabled_correct : forall tables os rel c,
+  registry_ok tables = true ->
+  enabled tables (auto_detect tables rel (parse_opts tables os)) c = enabled_spec tables os rel c.
+Proof. exact enabled_correct_stmt. Qed.
+Print Assumptions enabled_correct.
+
+(* E1a: the namespace after parsing, pointwise (no function extensionality) *)
+Theorem parse_mv_spec : forall tables os t co,
+  registry_ok tables = true -> In t tables -> In co (opts_of t) ->
+  mv (parse_opts tables os) co
+  = match last_mention co (t_name t) os with Some v => v | None => true end.
+Proof. exact parse_mv_stmt. Qed.
+Print Assumptions parse_mv_spec.
+
+Theorem parse_gv_spec : forall tables os t,
+  In t tables ->
+  (gv (parse_opts tables os) (t_name t) = None <-> group_set (t_name t) os = false).
+Proof. exact parse_gv_stmt. Qed.
+Print Assumptions parse_gv_spec.
+
+(* E1b: detection changes an option only through the theory that owns it *)
+Theorem auto_detect_mv_spec : forall tables rel s t co,
+  registry_ok tables = true -> In t tables -> In co (opts_of t) ->
+  mv (auto_detect tables rel s) co
+  = match gv s (t_name t) with
+    | Some _ => mv s co
+    | None => if t_rel t && negb (rel (t_name t)) then false else mv s co
+    end.
+Proof. exact auto_detect_mv_stmt. Qed.
+Print Assumptions auto_detect_mv_spec.
+
+(* E2: the generated tables *)
+Theorem registry_sound : tables_ok = true.
+Proof. exact registry_sound_proof. Qed.
+Print Assumptions registry_sound.
+
+Theorem registered_classes_defined_gen : forall t rc,
+  In t theories -> In rc (t_reg t) ->
+  exists e d, find (fun e => str_eqb (fst e) (t_name t)) classes = Some e
+              /\ In d (snd e) /\ fst (fst (fst d)) = fst rc
+              /\ (snd (fst d) || snd d = true).
+Proof. exact registered_classes_defined. Qed.
+Print Assumptions registered_classes_defined_gen.
+
+Theorem enabled_correct_gen : forall os rel c,
+  enabled theories (auto_detect theories rel (parse_opts theories os)) c
+  = enabled_spec theories os rel c.
+Proof. exact enabled_correct_gen_proof. Qed.
+Print Assumptions enabled_correct_gen.
+
+(* E3: hierarchical passes *)
+Theorem hier_last_pass : forall tables p1 p2 late,
+  registry_ok tables = true -> (forall x, In x late -> In x (all_classes tables)) ->
+  forall s c, In c (last (hier_passes tables p1 p2 late s) []) <-> enabled tables s c = true.
+Proof. exact hier_last_pass_proof. Qed.
+Print Assumptions hier_last_pass.
+
+(* the same without the two hypotheses, which the proof does not use *)
+Theorem hier_last_pass_nohyp : forall tables p1 p2 late s c,
+  In c (last (hier_passes tables p1 p2 late s) []) <-> enabled tables s c = true.
+Proof. exact hier_last_pass_strong. Qed.
+Print Assumptions hier_last_pass_nohyp.
+
+Theorem hier_passes_sub : forall tables p1 p2 late s p c,
+  In p (hier_passes tables p1 p2 late s) -> In c p -> enabled tables s c = true.
+Proof. exact hier_passes_sub_proof. Qed.
+Print Assumptions hier_passes_sub.
+
+Theorem hier_last_pass_gen : forall s c,
+  In c (last (hier_passes theories hier_prelude1 hier_prelude2 hier_late s) [])
+  <-> enabled theories s c = true.
+Proof. exact hier_last_pass_gen_proof. Qed.
+Print Assumptions hier_last_pass_gen.
+
+Theorem hier_passes_sub_gen : forall s p c,
+  In p (hier_passes theories hier_prelude1 hier_prelude2 hier_late s) -> In c p ->
+  enabled theories s c = true.
+Proof. exact hier_passes_sub_gen_proof. Qed.
+Print Assumptions hier_passes_sub_gen.
+
+(* E4: ddmin passes.  The last hypothesis is an additional side condition
+   (BinaryReduction is in neither stage list); without it the statement is false. *)
+Theorem ddmin_passes_spec : forall tables stage1 stage2 exclude,
+  registry_ok tables = true ->
+  (forall x, In x stage1 -> In x (all_classes tables)) ->
+  (forall x, In x stage2 -> In x (all_classes tables)) ->
+  (forall x, In x exclude -> In x (all_classes tables)) ->
+  exclude = [s_BinaryReduction] ->
+  In s_EraseNode (all_classes tables) ->
+  mem_str s_BinaryReduction (stage1 ++ stage2) = false ->
+  forall s c, In c (concat (ddmin_passes tables stage1 stage2 exclude s))
+              <-> (enabled tables s c = true /\ c <> s_BinaryReduction).
+Proof. exact ddmin_passes_spec_proof. Qed.
+Print Assumptions ddmin_passes_spec.
+
+(* the same with only the hypotheses the proof uses *)
+Theorem ddmin_passes_spec_min : forall tables stage1 stage2 exclude,
+  exclude = [s_BinaryReduction] ->
+  mem_str s_BinaryReduction (stage1 ++ stage2) = false ->
+  forall s c, In c (concat (ddmin_passes tables stage1 stage2 exclude s))
+              <-> (enabled tables s c = true /\ c <> s_BinaryReduction).
+Proof. exact ddmin_passes_spec_strong. Qed.
+Print Assumptions ddmin_passes_spec_min.
+
+Theorem ddmin_passes_spec_gen : forall s c,
+  In c (concat (ddmin_passes theories ddmin_stage1 ddmin_stage2 ddmin_exclude s))
+  <-> (enabled theories s c = true /\ c <> s_BinaryReduction).
+Proof. exact ddmin_passes_spec_gen_proof. Qed.
+Print Assumptions ddmin_passes_spec_gen.
+
+(* E5: examples over the generated tables (enabled_list = the registered
+   classes that are enabled, classes_of = the registered classes of a theory) *)
+
+(* --disable-all --constants --bv, nothing of any theory declared in the input *)
+Example ex_disable_all_then_enable :
+  enabled_list [CDisableAll; CMut (lit "constants") true; CGroup (lit "bv") true] (fun _ => false)
+  = lit "Constants" :: classes_of (lit "bv").
+Proof. vm_compute. reflexivity. Qed.
+
+(* the order matters: --bv --disable-all --constants leaves only Constants *)
+Example ex_order_matters :
+  enabled_list [CGroup (lit "bv") true; CDisableAll; CMut (lit "constants") true] (fun _ => false)
+  = [lit "Constants"].
+Proof. vm_compute. reflexivity. Qed.
+
+(* the user only says --no-bv-zero-concat, the input uses bit-vectors only:
+   detection switches off arithmetic, datatypes, fp and strings, which the user
+   did not mention; theories without is_relevant stay on *)
+Example ex_auto_detect_off :
+  enabled_list [CMut (lit "bv-zero-concat") false] (fun tn => str_eqb tn (lit "bv"))
+  = filter (fun c => negb (str_eqb c (lit "BVConcatToZeroExtend")))
+      (classes_of (lit "core") ++ classes_of (lit "bv") ++ classes_of (lit "boolean")
+       ++ classes_of (lit "smtlib")).
+Proof. vm_compute. reflexivity. Qed.
+
+Example ex_auto_detect_fp_off :
+  enabled theories (auto_detect theories (fun tn => str_eqb tn (lit "bv"))
+                      (parse_opts theories [CMut (lit "bv-zero-concat") false]))
+          (lit "FPShortSort") = false.
+Proof. vm_compute. reflexivity. Qed.
+
+(* a group the user set explicitly is not touched by detection *)
+Example ex_explicit_group_kept :
+  enabled_list [CDisableAll; CGroup (lit "fp") true] (fun _ => false) = classes_of (lit "fp").
+Proof. vm_compute. reflexivity. Qed.
+
+(* an unknown group name is ignored and does not count as a mention *)
+Example ex_unknown_group :
+  enabled_list [CGroup (lit "nonesuch") false] (fun _ => true) = all_classes theories.
+Proof. vm_compute. reflexivity. Qed.
+
+(* the passes of both strategies after --disable-all --constants --bv *)
+Example ex_hier_last :
+  last (hier_passes theories hier_prelude1 hier_prelude2 hier_late
+          (auto_detect theories (fun _ => false)
+             (parse_opts theories [CDisableAll; CMut (lit "constants") true; CGroup (lit "bv") true])))
+       []
+  = lit "Constants" :: classes_of (lit "bv").
+Proof. vm_compute. reflexivity. Qed.
+
+Example ex_ddmin_default_no_binred :
+  existsb (str_eqb s_BinaryReduction)
+    (concat (ddmin_passes theories ddmin_stage1 ddmin_stage2 ddmin_exclude ns0)) = false
+  /\ enabled theories ns0 s_BinaryReduction = true.
+Proof. vm_compute. split; reflexivity. Qed.
